@@ -52,6 +52,9 @@ pub fn pool_shapes(ctx: &Ctx, alg: Alg) -> Vec<(Vec<Level>, Vec<u64>)> {
     let w5 = if alg.is_shake() { 4 } else { 8 };
     v.push((levels(&[(5, w5)]), vec![0, 17, 31]));
     v.push((levels(&[(2, 8), (2, 4)]), vec![0, 5, 15]));
+    // the cheapest multi-level key there is (a complete verification costs ~300 hashes: affordable
+    // even for the interpreter stage)
+    v.push((levels(&[(2, 1), (2, 1)]), vec![6]));
     v.push((levels(&[(2, 4), (2, 8), (2, 2)]), vec![0, 21, 63]));
     v.push(((0..8).map(|_| Level { h: crate::common::h2(), w: 8 }).collect(), vec![0, 40000]));
     if alg.n() == 32 {
